@@ -81,6 +81,7 @@ impl BlockStore {
 pub mod bitfield { pub use crate::DynamicBitfield as Bitfield; }
 pub use bitfield::Bitfield;
 pub use replication::events::{Ev, Events};
+/*@ item src/core.rs struct HypercoreOptions @*/
 /*@ item src/core.rs struct Hypercore @*/
 /*@ item src/core.rs struct AppendOutcome @*/
 /*@ item src/core.rs struct Info @*/
@@ -615,6 +616,38 @@ impl Hypercore {
         final(self).same_view(old(self)), final(self).bitfield == old(self).bitfield, final(self).tree == old(self).tree,
         final(self).storage.journal@ == old(self).storage.journal@,
         final(self).storage.failed@ ==> r is Err
+    @*/
+}
+
+impl Hypercore {
+    /*@ fn src/core.rs Hypercore::new ; noisolation
+    tags: C01 C02 C10 C12
+    result: r
+    requires:
+        !storage.failed@
+    ensures:
+        // C12: a key pair together with open mode is rejected before the storage is touched
+        options.open && options.key_pair is Some ==> r is Err && r->Err_0 is BadArgument,
+        // the opened core takes its key pair (and so its writability) from the stored header
+        r is Ok ==> r->Ok_0.key_pair == r->Ok_0.header.key_pair && r->Ok_0.skip_flush_count == 0
+            && r->Ok_0.events.trace@ == Seq::<Ev>::empty(),
+        // opening existing storage writes nothing; creating writes only the first header slot
+        r is Ok ==> r->Ok_0.storage.journal@.len() <= storage.journal@.len() + 2
+    sub `Signature::try_from\(&\*tree_upgrade\.signature\)` => `Signature::vp_try_from(&*tree_upgrade.signature)`
+    sub `BlockStore::default\(\)` => `BlockStore {}`
+    sub `for entry in entries\.iter\(\) \{` => `for entry in it_e: entries.iter() {`
+    sub `for node in &entry\.tree_nodes \{` => `for node in it_n: entry.tree_nodes.iter() {`
+    loop 1:
+        invariant
+            !storage.failed@, bitfield.wf(), storage.journal@.len() <= old_journal_len + 2
+    loop 2:
+        invariant
+            !storage.failed@, bitfield.wf(), storage.journal@.len() <= old_journal_len + 2
+    first:
+        let ghost old_journal_len = storage.journal@.len();
+    unproved-from `bitfield.update(bitfield_update);` to `if let Some(tree_upgrade) = &entry.tree_upgrade {`:
+        replaying entries read from disk: the ranges carried by stored entries and the exactness of the stored hint
+        depend on the contents of the oplog file, which no contract on this function can constrain
     @*/
 }
 
